@@ -719,4 +719,8 @@ def is_consistent(C):
 
     Order as computed by :func:`ro`.
     """
-    return not C3.resolver(C, False, None).had_inconsistency
+    resolver = C3.resolver(C, False, None)
+    # The leaf's own merge only runs (and records a direct inconsistency)
+    # when the MRO is actually computed.
+    resolver.mro()
+    return not resolver.had_inconsistency
